@@ -28,6 +28,9 @@ BOUNDARY_METHODS = ("commit", "rollback", "executescript")
 LEGACY_LEVELS = ("", "DEFERRED", "IMMEDIATE", "EXCLUSIVE")
 
 
+DML_FIRST = ("INSERT", "UPDATE", "DELETE", "REPLACE")
+
+
 def dispatch_branches(ctx, keyattr="task", func="user_interface.main"):
     """{task literal: (If node, body)} from `if args.<keyattr> == 'x'` chains."""
     f = ctx.func(func)
@@ -431,6 +434,50 @@ def run(ctx, chk, tier="quick"):
     for _, (R, W) in rw.items():
         written |= W
     chk.floor("distinct base tables written by the five steps", len(written), 12)
+
+    # ---- O6: the driver opens the implicit transaction before the step's writes
+    # CPython's sqlite3 (legacy transaction control) issues BEGIN only before a statement whose FIRST
+    # keyword is INSERT / UPDATE / DELETE / REPLACE.  A write spelled `WITH ... INSERT` is not recognised:
+    # with no transaction open it runs in autocommit, every execution is its own commit.
+    seen_sites = set()
+    n_dml = 0
+    for name, sm in steps.items():
+        for fq in sorted(sm.tree):
+            f = ctx.cg.func(fq)
+            fl = None
+            for site in ctx.sites_in(f):
+                if site.method == "executescript" or id(site.call) in seen_sites:
+                    continue
+                for st in site.statements:
+                    if st.kind not in ("insert", "update", "delete"):
+                        continue
+                    seen_sites.add(id(site.call))
+                    n_dml += 1
+                    chk.info("C20.O6", where_of(f, site.call), "%s %s first keyword %s" % (st.kind, st.table, getattr(st, "first_keyword", None)))
+                    fk = getattr(st, "first_keyword", None)
+                    if fk in DML_FIRST:
+                        continue
+                    # safe only if a recognised write of the same function dominates it (the transaction is already open)
+                    if fl is None:
+                        fl = Flow.of(f)
+                    me = fl.cfg.node_containing(site.call)
+                    opened = False
+                    for other in ctx.sites_in(f):
+                        if other is site or other.method == "executescript":
+                            continue
+                        if any(o.kind in ("insert", "update", "delete") and getattr(o, "first_keyword", None) in DML_FIRST for o in other.statements):
+                            on = fl.cfg.node_containing(other.call)
+                            if on is not None and me is not None and on != me and fl.cfg.dominates(on, me):
+                                opened = True
+                    chk.ob("C20.O6", opened, where_of(f, site.call),
+                           "%s into %s is spelled `%s ...`: the driver does not open a transaction before it%s" % (
+                               st.kind.upper(), st.table, fk, "" if not opened else " (one is already open: an earlier INSERT / UPDATE / DELETE of this function dominates it)"),
+                           "every write of a step starts with INSERT / UPDATE / DELETE / REPLACE, or follows one on every path",
+                           key="%s|%s|first-keyword:%s:%s" % (f.module.relpath, f.qualname, fk, st.table),
+                           why="with no transaction open the statement runs in autocommit: rows written before a later failure or kill stay in the file, and the `with connection:` rollback cannot undo them")
+    chk.ob("C20.O6", True, where_of(dispatch, dispatch.node), "%d INSERT / UPDATE / DELETE sites in the five steps read for their first keyword" % n_dml,
+           "every write of a step starts with INSERT / UPDATE / DELETE / REPLACE, or follows one on every path", key="dispatch|first-keywords")
+    chk.floor("INSERT / UPDATE / DELETE sites in the five steps", n_dml, 13)
 
     # positive control for the zero-expected rule O2
     _positive_control(chk)
